@@ -203,10 +203,16 @@ def r2_lines_once(ctx):
                     if not bad_:
                         continue        # "the want text is not empty": an empty text has no lines to show anyway
                 names.add(fa.expr.id)
+        # a condition of the comprehension that does not look at the line is a guard of the whole block, not a filter of lines
+        tv_ = {x.id for x in ast.walk(comp.generators[0].target) if isinstance(x, ast.Name)}
+        line_filters = [t for t in comp.generators[0].ifs if any(isinstance(x, ast.Name) and x.id in tv_ for x in ast.walk(t))]
+        for t in comp.generators[0].ifs:
+            if t not in line_filters and isinstance(t, ast.Name):
+                names.add(t.id)
         ok = names <= {'want'} and 'want' in names
         rep.ob('C18.R2', ctx.loc(f, n.ast), ctx.src(n.ast), ok,
                'want lines are emitted iff the `want` option is on' if ok else 'want lines are emitted under %s' % sorted(names), anchor=FP)
-        ok = not comp.generators[0].ifs
+        ok = not line_filters
         rep.ob('C18.R2', ctx.loc(f, comp), 'one row per want line', ok, 'the comprehension keeps every line of the want' if ok else 'want lines are filtered before they are displayed', anchor=FP)
     for a in apps:
         loops = [fr for fr in a.frames if fr.kind == 'loop']
